@@ -28,7 +28,10 @@ def tv_heap_gb(tier):
 
 
 def tv_par(tier):
-    return max(2, min(NCPU, int(MEM_GB * 0.6 / tv_heap_gb(tier))))
+    p = max(2, min(NCPU, int(MEM_GB * 0.6 / tv_heap_gb(tier))))
+    if os.environ.get("VERIF_PAR"):       # development: share the machine with another run
+        p = max(1, min(p, int(os.environ["VERIF_PAR"])))
+    return p
 
 
 MC_HEAP_GB = max(4, min(16, int(MEM_GB * 0.3)))
